@@ -1,10 +1,16 @@
 """C12 -- pitch, key, duration and time-unit conversions are mutually consistent.
 
 Tie to the source: T2 (complete tabulation of the real functions on the finite
-domains the property names, regenerated into coq/Gen/C12_Tab.v on every run and
-re-checked in the kernel by Proofs/C12.v) + reflected constant tables
-(Gen/C12_Tables.v) + correspondence of the hand model of the seconds<->ticks
-conversion on sampled (ppq, mpq, time) triples, scalars and numpy arrays.
+domains the property names + reflection of the constant tables it lists, regenerated
+into coq/Gen/C12_Tab.v on every run and re-checked in the kernel by Proofs/C12.v)
++ vm_compute correspondence of the hand model on sampled inputs beyond those domains
+(seconds<->ticks with scalars and numpy arrays, spellings / MIDI pitches / note names /
+fifths outside the tabulated ranges, Tempo.microseconds_per_quarter).
+
+Every comparison is at the level of the property text: a conversion must AGREE WITH
+TWELVE-TONE ARITHMETIC and INVERT its partner; the particular spelling chosen for a
+MIDI pitch, the particular accidental signs printed in a note name, integer codes of
+modes/clefs are not prescribed (only that they decode to what was encoded).
 """
 import itertools
 import math
@@ -17,7 +23,14 @@ STEPS7 = ["C", "D", "E", "F", "G", "A", "B"]
 MODES = [("major", '"major"'), ("minor", '"minor"'), (None, "None"), ("none", '"none"'),
          (1, "1"), (-1, "-1"), ("dorian", '"dorian"'), (0, "0"), ("Major", '"Major"')]
 QUALS = ["dd", "d", "m", "M", "P", "A", "AA"]
-ALT_SPELL = [("", 0), ("#", 1), ("##", 2), ("x", 2), ("###", 3), ("b", -1), ("bb", -2), ("bbb", -3)]
+# accidental strings with a documented meaning (SIGN_TO_ALTER restricted to the grammar's alphabet x b #)
+DOC_ACC = ["", "#", "x", "##", "###", "b", "bb", "bbb"]
+ACC_ALPHABET = "xb#"
+OCT_STRINGS = ["0", "1", "4", "9", "10", "12"]
+SIGN_VAL = {"#": 1, "s": 1, "b": -1, "f": -1, "-": -1, "x": 2, "n": 0}
+BPMS = [1, 30, 40, 60, 66, 88, 100, 120, 144, 180, 208, 240, 333, 72.5, 59.75]
+TEMPI = [1, 60, 100, 72.5, 0.5]
+TUPLETS = [(3, 2), (5, 4), (6, 4), (7, 4), (2, 3), (7, 8)]
 
 
 def _try(f, *a, **k):
@@ -25,6 +38,53 @@ def _try(f, *a, **k):
         return ("ok", f(*a, **k))
     except Exception as e:  # any rejection counts as "rejected"
         return ("err", type(e).__name__)
+
+
+def sign_value(s):
+    """one semitone per sign; None when a character is no accidental sign"""
+    if any(c not in SIGN_VAL for c in s):
+        return None
+    return sum(SIGN_VAL[c] for c in s)
+
+
+def all_acc_strings(maxlen=3):
+    out = [""]
+    for n in range(1, maxlen + 1):
+        out += ["".join(p) for p in itertools.product(ACC_ALPHABET, repeat=n)]
+    return out
+
+
+def _py(v):
+    """numpy scalars -> Python numbers (so that results compare and serialise plainly)"""
+    try:
+        import numpy as np
+        if isinstance(v, np.generic):
+            return v.item()
+    except Exception:
+        pass
+    return v
+
+
+def _ps_norm(r):
+    """normalise a (step, alter, octave) result"""
+    if r[0] != "ok":
+        return r
+    try:
+        st, al, oc = r[1]
+        return ("ok", (str(st), _py(al), _py(oc)))
+    except Exception:
+        return ("err", "malformed:%r" % (r[1],))
+
+
+def _int_norm(r):
+    if r[0] != "ok":
+        return r
+    v = _py(r[1])
+    if isinstance(v, bool) or not isinstance(v, int):
+        if isinstance(v, float) and v == int(v):
+            return ("ok", int(v))
+        return ("err", "not-an-integer:%r" % (v,))
+    return ("ok", v)
 
 
 def tabulate():
@@ -35,44 +95,86 @@ def tabulate():
     import partitura.score as S
 
     T = {}
+    dom_ps = list(itertools.product(STEPS7, range(-3, 4), range(-1, 10)))
     # O1 ---------------------------------------------------------------
-    rows = []
-    for st, al, oc in itertools.product(STEPS7, range(-3, 4), range(-1, 10)):
-        rows.append(((st, al, oc), _try(M.pitch_spelling_to_midi_pitch, st, al, oc)))
-    # lower-case steps and alter None are accepted too
-    for st in STEPS7:
-        rows.append(((st.lower(), 0, 4), _try(M.pitch_spelling_to_midi_pitch, st.lower(), 0, 4)))
-    T["ps_to_midi"] = rows
-    T["ps_to_midi_none"] = [((st, oc), _try(M.pitch_spelling_to_midi_pitch, st, None, oc)) for st in STEPS7 for oc in (-1, 4, 9)]
-    T["midi_to_ps"] = [(m, _try(M.midi_pitch_to_pitch_spelling, m)) for m in range(0, 128)]
-    T["note_name"] = [((st, al, oc), _try(M.pitch_spelling_to_note_name, st, al, oc))
-                      for st, al, oc in itertools.product(STEPS7, range(-3, 4), range(-1, 10))]
-    names = sorted({r[1] for _, r in T["note_name"] if r[0] == "ok"})
-    T["name_parse"] = [(n, _try(M.note_name_to_pitch_spelling, n), _try(M.note_name_to_midi_pitch, n)) for n in names]
-    # every accidental spelling the grammar [A-G][xb#]*digits admits with a defined meaning, multi-digit octaves too
-    T["name_alt"] = [((st, ai, oc), _try(M.note_name_to_pitch_spelling, st + ALT_SPELL[ai][0] + str(oc)),
-                      _try(M.note_name_to_midi_pitch, st + ALT_SPELL[ai][0] + str(oc)))
-                     for st, ai, oc in itertools.product(STEPS7, range(len(ALT_SPELL)), [0, 1, 4, 9, 10, 12])]
+    T["ps_to_midi"] = [((st, al, oc), _int_norm(_try(M.pitch_spelling_to_midi_pitch, st, al, oc))) for st, al, oc in dom_ps]
+    # lower-case steps: accepted by the code; the property does not ask for it (if accepted: same arithmetic)
+    T["ps_to_midi_lower"] = [((st.lower(), al, oc), _int_norm(_try(M.pitch_spelling_to_midi_pitch, st.lower(), al, oc)))
+                             for st in STEPS7 for al, oc in ((0, 4), (-2, 0), (3, 9))]
+    # alter None = unaltered (documented for Note)
+    T["ps_to_midi_none"] = [((st, oc), _int_norm(_try(M.pitch_spelling_to_midi_pitch, st, None, oc))) for st in STEPS7 for oc in (-1, 4, 9)]
+    T["midi_to_ps"] = [(m, _ps_norm(_try(M.midi_pitch_to_pitch_spelling, m))) for m in range(0, 128)]
+    dummy = getattr(G, "DUMMY_PS_BASE_CLASS", None)
+    if isinstance(dummy, dict) and all(pc in dummy for pc in range(12)):
+        T["dummy_ps"] = [(pc, (str(dummy[pc][0]), int(dummy[pc][1]))) for pc in range(12)]
+        T["dummy_ps_source"] = "globals.DUMMY_PS_BASE_CLASS"
+    else:  # the table is gone: take the pitch-class spellings from the function itself (octave -1)
+        T["dummy_ps"] = [(pc, (r[1][0], r[1][1])) for pc, r in T["midi_to_ps"][:12] if r[0] == "ok"]
+        T["dummy_ps_source"] = "midi_pitch_to_pitch_spelling(0..11)"
+    T["step2pc"] = [((st, al), _int_norm(_try(M.step2pc, st, al))) for st in STEPS7 for al in range(-3, 4)]
+    T["note_name"] = [((st, al, oc), _try(M.pitch_spelling_to_note_name, st, al, oc)) for st, al, oc in dom_ps]
+    names = sorted({r[1] for _, r in T["note_name"] if r[0] == "ok" and isinstance(r[1], str)})
+    T["name_parse"] = [(n, _ps_norm(_try(M.note_name_to_pitch_spelling, n)), _int_norm(_try(M.note_name_to_midi_pitch, n))) for n in names]
+    # the grammar [A-G][xb#]*digits: every documented accidental string x several (multi-digit) octaves,
+    # every other accidental string up to three signs at octave 4 and with a leading-zero octave
+    gram = [st + a + o for st in STEPS7 for a in DOC_ACC for o in OCT_STRINGS]
+    gram += [st + a + "4" for st in STEPS7 for a in all_acc_strings(3) if a not in DOC_ACC]
+    gram += [st + a + "007" for st in ("C", "B") for a in ("", "#", "bb")]
+    T["name_grammar"] = [(n, _ps_norm(_try(M.note_name_to_pitch_spelling, n)), _int_norm(_try(M.note_name_to_midi_pitch, n))) for n in gram]
+    # ensure_pitch_spelling_format: step in either case, every sign of SIGN_TO_ALTER with a value, int and str octave
+    signs = sorted(k for k, v in M.SIGN_TO_ALTER.items() if v is not None)
+    T["ensure_sign"] = [((st, sg), _ps_norm(_try(M.ensure_pitch_spelling_format, st, sg, oc)))
+                        for st in STEPS7 + [s.lower() for s in STEPS7] for sg in signs for oc in (4,)]
+    T["ensure_int"] = [((st, al, oc), _ps_norm(_try(M.ensure_pitch_spelling_format, st, al, oc)))
+                       for st in ("C", "f", "B") for al in range(-3, 4) for oc in (-1, 4, 11)]
+    # Note.midi_pitch / Note.alter_sign (partitura/score.py)
+    def note_midi(st, oc, al):
+        return S.Note(step=st, octave=oc, alter=al).midi_pitch
+    T["note_midi"] = [((st, al, oc), _int_norm(_try(note_midi, st, oc, al))) for st, al, oc in dom_ps]
+    T["note_midi"] += [((st, None, oc), _int_norm(_try(note_midi, st, oc, None))) for st in STEPS7 for oc in (-1, 4, 9)]
+    T["note_midi_lower"] = [((st.lower(), al, 4), _int_norm(_try(note_midi, st.lower(), 4, al))) for st in STEPS7 for al in (0, 1, -2)]
+    def alter_sign(al):
+        return S.Note(step="C", octave=4, alter=al).alter_sign
+    T["note_alter_sign"] = [(al, _try(alter_sign, al)) for al in [None, -3, -2, -1, 0, 1, 2, 3]]
+    # constant tables the property lists (reflected)
+    T["base_pc"] = [(k, int(v)) for k, v in sorted(G.BASE_PC.items())]
+    T["midi_base_class"] = [(k, int(v)) for k, v in sorted(G.MIDI_BASE_CLASS.items())]
+    T["steps_idx"] = [(k, int(v)) for k, v in G.STEPS.items() if isinstance(k, str)]
+    T["steps_letter"] = [(int(k), str(v)) for k, v in G.STEPS.items() if not isinstance(k, str)]
+    T["alt_to_int"] = [(k, int(v)) for k, v in sorted(G.ALT_TO_INT.items())]
+    T["int_to_alt"] = [(int(k), str(v)) for k, v in sorted(G.INT_TO_ALT.items())]
+    T["sign_to_alter"] = [(k, None if v is None else int(v)) for k, v in sorted(M.SIGN_TO_ALTER.items())]
+    T["interval_to_semitones"] = [(k, int(v)) for k, v in sorted(G.INTERVAL_TO_SEMITONES.items())]
     # O2 ---------------------------------------------------------------
     T["key_name"] = [((f, mi), _try(M.fifths_mode_to_key_name, f, MODES[mi][0]))
                      for f in range(-12, 13) for mi in range(len(MODES))]
-    keynames = sorted({r[1] for (f, mi), r in T["key_name"] if r[0] == "ok" and -7 <= f <= 7})
+    def ks_name(f, mode):
+        return S.KeySignature(f, mode).name
+    T["keysig_name"] = [((f, mi), _try(ks_name, f, MODES[mi][0])) for f in range(-12, 13) for mi in range(len(MODES))]
+    keynames = sorted({r[1] for (f, mi), r in T["key_name"] if r[0] == "ok" and -7 <= f <= 7 and isinstance(r[1], str)})
     T["key_parse"] = [(n, _try(M.key_name_to_fifths_mode, n)) for n in keynames]
     # O6 ---------------------------------------------------------------
-    T["mode_int"] = [(mi, _try(M.key_mode_to_int, MODES[mi][0])) for mi in range(len(MODES))]
+    T["mode_int"] = [(mi, _int_norm(_try(M.key_mode_to_int, MODES[mi][0]))) for mi in range(len(MODES))]
     T["int_mode"] = [(mi, _try(M.key_int_to_mode, MODES[mi][0])) for mi in range(len(MODES))]
-    T["clef"] = [(s, _try(M.clef_sign_to_int, s)) for s in list(G.CLEF_TO_INT.keys()) + ["X"]]
-    T["clef_back"] = [(i, _try(M.clef_int_to_sign, i)) for i in range(-1, len(G.CLEF_TO_INT) + 1)]
+    T["mode_rt"] = [(mi, _try(lambda mi=mi: M.key_int_to_mode(M.key_mode_to_int(MODES[mi][0])))) for mi in range(len(MODES))]
+    T["clef"] = [(s, _int_norm(_try(M.clef_sign_to_int, s))) for s in list(G.CLEF_TO_INT.keys()) + ["X"]]
+    codes = sorted({r[1] for _, r in T["clef"] if r[0] == "ok"})
+    lo, hi = (min(codes), max(codes)) if codes else (0, 0)
+    T["clef_back"] = [(i, _try(M.clef_int_to_sign, i)) for i in range(lo - 1, hi + 2)]
     # O3 ---------------------------------------------------------------
     T["interval"] = []
     for num, q, d in itertools.product(range(1, 9), QUALS, ("up", "down")):
         def sem(num=num, q=q, d=d):
             return S.Interval(num, q, d).semitones
-        T["interval"].append(((num, q, d), _try(sem)))
+        T["interval"].append(((num, q, d), _int_norm(_try(sem))))
     T["intervalclasses"] = list(G.INTERVALCLASSES)
     units = list(G.LABEL_DURS.keys())
-    T["tempo"] = [((u, k), _try(M.to_quarter_tempo, u + "." * k, 1)) for u in units for k in range(0, 4)]
-    tup = [(None, None), (3, 2), (5, 4), (6, 4), (7, 4), (2, 3), (7, 8)]
+    T["tempo"] = [((u, k, tp), _try(M.to_quarter_tempo, u + "." * k, tp)) for u in units for k in range(0, 4) for tp in TEMPI]
+    def mpq(bpm, unit):
+        return S.Tempo(bpm, unit).microseconds_per_quarter
+    T["mpq"] = [((u, k, bpm), _int_norm(_try(mpq, bpm, u + "." * k))) for u in units for k in range(0, 4) for bpm in BPMS]
+    T["mpq"] += [(("", 0, bpm), _int_norm(_try(mpq, bpm, None))) for bpm in BPMS]
+    tup = [(None, None)] + TUPLETS
     T["symdur"] = []
     for u, k, (an, nn) in itertools.product(units, range(0, 4), tup):
         sd = {"type": u, "dots": k}
@@ -80,19 +182,22 @@ def tabulate():
             sd["actual_notes"], sd["normal_notes"] = an, nn
         for divs in (1, 12, 480):
             T["symdur"].append(((u, k, an or 1, nn or 1, divs), _try(M.symbolic_to_numeric_duration, sd, divs)))
+    def tmult(an, nn, at, nt):
+        return S.Tuplet(actual_notes=an, normal_notes=nn, actual_type=at, normal_type=nt).duration_multiplier
+    T["tuplet"] = [((an, nn, at, nt), _try(tmult, an, nn, at, nt)) for (an, nn) in TUPLETS for at in units for nt in units]
+    T["tuplet"] += [((an, nn, "", ""), _try(tmult, an, nn, None, None)) for (an, nn) in TUPLETS]
     T["label_durs"] = [(u, G.LABEL_DURS[u]) for u in units]
     T["dot_mult"] = list(G.DOT_MULTIPLIERS)
     # O5 ---------------------------------------------------------------
     def rt(m, a4):
         return int(M.frequency_to_midi_pitch(M.midi_pitch_to_frequency(m, a4), a4))
     T["freq"] = [((m, a4), _try(rt, m, a4)) for m in range(0, 128) for a4 in (440.0, 415.0, 442.0)]
-    # value of the frequency itself (equal temperament: a4/32 * 2^((m-9)/12)) and nearest-semitone rounding
+    # value of the frequency itself (equal temperament: a4 * 2^((m-69)/12)) and nearest-semitone rounding
     T["freq_val"] = [((m, a4), _try(lambda m=m, a4=a4: float(M.midi_pitch_to_frequency(m, a4)))) for m in range(0, 128) for a4 in (440.0, 415.0)]
     def off(m, k):
         f = M.midi_pitch_to_frequency(m) * 2.0 ** (k / 120.0)
         return int(M.frequency_to_midi_pitch(f))
     T["freq_off"] = [((m, k), _try(off, m, k)) for m in range(0, 128) for k in (-4, 4)]
-    T["freq_a4"] = _try(M.midi_pitch_to_frequency, 69)
     T["freq_arr"] = _try(lambda: [int(x) for x in M.frequency_to_midi_pitch(M.midi_pitch_to_frequency(np.arange(128)))])
     return T
 
@@ -111,8 +216,24 @@ def _ps3(t):
     return ctuple([cstr(str(st)), cz(al), cz(oc)])
 
 
+def _sres(r):
+    """a result that should be a printable string"""
+    if r[0] == "ok" and isinstance(r[1], str) and all(32 <= ord(c) < 127 for c in r[1]):
+        return "(Some %s)" % cstr(r[1])
+    return "None"
+
+
+def _qres(r):
+    if r[0] != "ok":
+        return "None"
+    try:
+        return "(Some %s)" % cq(Fraction(r[1]))
+    except Exception:
+        return "None"
+
+
 def gen(T=None):
-    """Write Gen/C12_Tab.v (function graphs) from the live implementation."""
+    """Write Gen/C12_Tab.v (function graphs + reflected tables) from the live implementation."""
     core.setup_import_path()
     if T is None:
         T = tabulate()
@@ -122,40 +243,62 @@ def gen(T=None):
     def deff(name, ty, items):
         L.append("Definition %s : list (%s) := [\n  %s\n]." % (name, ty, ";\n  ".join(items) if items else ""))
 
-    deff("tab_ps_to_midi", "(string * Z * Z) * option Z",
-         [ctuple([_ps3(k), _res(r, cz)]) for k, r in T["ps_to_midi"]])
+    PS = "option (string * option Z * option Z)"
+    deff("tab_ps_to_midi", "(string * Z * Z) * option Z", [ctuple([_ps3(k), _res(r, cz)]) for k, r in T["ps_to_midi"]])
+    deff("tab_ps_to_midi_lower", "(string * Z * Z) * option Z", [ctuple([_ps3(k), _res(r, cz)]) for k, r in T["ps_to_midi_lower"]])
     deff("tab_ps_to_midi_none", "(string * Z) * option Z",
          [ctuple([ctuple([cstr(k[0]), cz(k[1])]), _res(r, cz)]) for k, r in T["ps_to_midi_none"]])
-    deff("tab_midi_to_ps", "Z * option (string * option Z * option Z)",
-         [ctuple([cz(k), _res(r, _ps)]) for k, r in T["midi_to_ps"]])
-    deff("tab_note_name", "(string * Z * Z) * option string",
-         [ctuple([_ps3(k), _res(r, cstr)]) for k, r in T["note_name"]])
-    deff("tab_name_parse", "string * option (string * option Z * option Z) * option Z",
-         [ctuple([cstr(n), _res(r, _ps), _res(m, cz)]) for n, r, m in T["name_parse"]])
-    deff("tab_name_alt", "(string * Z * Z) * (option (string * option Z * option Z) * option Z)",
-         [ctuple([ctuple([cstr(st), cz(ALT_SPELL[ai][1]), cz(oc)]), ctuple([_res(r, _ps), _res(m, cz)])]) for (st, ai, oc), r, m in T["name_alt"]])
-    deff("tab_key_name", "(Z * Z) * option string",
-         [ctuple([ctuple([cz(f), cz(mi)]), _res(r, cstr)]) for (f, mi), r in T["key_name"]])
-    deff("tab_key_parse", "string * option (Z * string)",
-         [ctuple([cstr(n), _res(r, lambda v: ctuple([cz(v[0]), cstr(v[1])]))]) for n, r in T["key_parse"]])
+    deff("tab_midi_to_ps", "Z * " + PS, [ctuple([cz(k), _res(r, _ps)]) for k, r in T["midi_to_ps"]])
+    deff("tab_dummy_ps", "Z * (string * Z)", [ctuple([cz(pc), ctuple([cstr(s), cz(a)])]) for pc, (s, a) in T["dummy_ps"]])
+    deff("tab_step2pc", "(string * Z) * option Z", [ctuple([ctuple([cstr(s), cz(a)]), _res(r, cz)]) for (s, a), r in T["step2pc"]])
+    deff("tab_note_name", "(string * Z * Z) * option string", [ctuple([_ps3(k), _sres(r)]) for k, r in T["note_name"]])
+    deff("tab_name_parse", "string * %s * option Z" % PS, [ctuple([cstr(n), _res(r, _ps), _res(m, cz)]) for n, r, m in T["name_parse"]])
+    deff("tab_name_grammar", "string * (%s * option Z)" % PS,
+         [ctuple([cstr(n), ctuple([_res(r, _ps), _res(m, cz)])]) for n, r, m in T["name_grammar"]])
+    deff("tab_ensure_sign", "(string * string) * " + PS, [ctuple([ctuple([cstr(s), cstr(g)]), _res(r, _ps)]) for (s, g), r in T["ensure_sign"]])
+    deff("tab_ensure_int", "(string * Z * Z) * " + PS, [ctuple([_ps3(k), _res(r, _ps)]) for k, r in T["ensure_int"]])
+    deff("tab_note_midi", "(string * option Z * Z) * option Z",
+         [ctuple([ctuple([cstr(s), copt(a, cz), cz(o)]), _res(r, cz)]) for (s, a, o), r in T["note_midi"]])
+    deff("tab_note_midi_lower", "(string * Z * Z) * option Z", [ctuple([_ps3(k), _res(r, cz)]) for k, r in T["note_midi_lower"]])
+    deff("tab_note_alter_sign", "option Z * option string", [ctuple([copt(a, cz), _sres(r)]) for a, r in T["note_alter_sign"]])
+    deff("tab_base_pc", "string * Z", [ctuple([cstr(k), cz(v)]) for k, v in T["base_pc"]])
+    deff("tab_midi_base_class", "string * Z", [ctuple([cstr(k), cz(v)]) for k, v in T["midi_base_class"]])
+    deff("tab_steps_idx", "string * Z", [ctuple([cstr(k), cz(v)]) for k, v in T["steps_idx"]])
+    deff("tab_steps_letter", "Z * string", [ctuple([cz(k), cstr(v)]) for k, v in T["steps_letter"]])
+    deff("tab_alt_to_int", "string * Z", [ctuple([cstr(k), cz(v)]) for k, v in T["alt_to_int"]])
+    deff("tab_int_to_alt", "Z * string", [ctuple([cz(k), cstr(v)]) for k, v in T["int_to_alt"]])
+    deff("tab_sign_to_alter", "string * option Z", [ctuple([cstr(k), copt(v, cz)]) for k, v in T["sign_to_alter"]])
+    deff("tab_interval_to_semitones", "string * Z", [ctuple([cstr(k), cz(v)]) for k, v in T["interval_to_semitones"]])
+    deff("tab_key_name", "(Z * Z) * option string", [ctuple([ctuple([cz(f), cz(mi)]), _sres(r)]) for (f, mi), r in T["key_name"]])
+    deff("tab_keysig_name", "(Z * Z) * option string", [ctuple([ctuple([cz(f), cz(mi)]), _sres(r)]) for (f, mi), r in T["keysig_name"]])
+    def kp(r):
+        try:
+            if r[0] == "ok" and isinstance(r[1][1], str):
+                return "(Some %s)" % ctuple([cz(r[1][0]), cstr(r[1][1])])
+        except Exception:
+            pass
+        return "None"
+    deff("tab_key_parse", "string * option (Z * string)", [ctuple([cstr(n), kp(r)]) for n, r in T["key_parse"]])
     deff("tab_mode_int", "Z * option Z", [ctuple([cz(mi), _res(r, cz)]) for mi, r in T["mode_int"]])
-    deff("tab_int_mode", "Z * option string", [ctuple([cz(mi), _res(r, cstr)]) for mi, r in T["int_mode"]])
+    deff("tab_int_mode", "Z * option string", [ctuple([cz(mi), _sres(r)]) for mi, r in T["int_mode"]])
+    deff("tab_mode_rt", "Z * option string", [ctuple([cz(mi), _sres(r)]) for mi, r in T["mode_rt"]])
     deff("tab_clef", "string * option Z", [ctuple([cstr(s), _res(r, cz)]) for s, r in T["clef"]])
-    deff("tab_clef_back", "Z * option string", [ctuple([cz(i), _res(r, cstr)]) for i, r in T["clef_back"]])
+    deff("tab_clef_back", "Z * option string", [ctuple([cz(i), _sres(r)]) for i, r in T["clef_back"]])
     deff("tab_interval", "(Z * string * bool) * option Z",
          [ctuple([ctuple([cz(n), cstr(q), "true" if d == "up" else "false"]), _res(r, cz)]) for (n, q, d), r in T["interval"]])
     deff("tab_intervalclasses", "string", [cstr(s) for s in T["intervalclasses"]])
-    deff("tab_tempo", "(string * Z) * option Q",
-         [ctuple([ctuple([cstr(u), cz(k)]), _res(r, lambda v: cq(Fraction(v)))]) for (u, k), r in T["tempo"]])
+    deff("tab_tempo", "(string * Z * Q) * option Q",
+         [ctuple([ctuple([cstr(u), cz(k), cq(Fraction(tp))]), _qres(r)]) for (u, k, tp), r in T["tempo"]])
+    deff("tab_mpq", "(string * Z * Q) * option Z",
+         [ctuple([ctuple([cstr(u), cz(k), cq(Fraction(b))]), _res(r, cz)]) for (u, k, b), r in T["mpq"]])
     deff("tab_symdur", "(string * Z * Z * Z * Z) * option Q",
-         [ctuple([ctuple([cstr(u), cz(k), cz(an), cz(nn), cz(dv)]), _res(r, lambda v: cq(Fraction(v)))])
-          for (u, k, an, nn, dv), r in T["symdur"]])
+         [ctuple([ctuple([cstr(u), cz(k), cz(an), cz(nn), cz(dv)]), _qres(r)]) for (u, k, an, nn, dv), r in T["symdur"]])
+    deff("tab_tuplet", "(Z * Z * string * string) * option Q",
+         [ctuple([ctuple([cz(an), cz(nn), cstr(at), cstr(nt)]), _qres(r)]) for (an, nn, at, nt), r in T["tuplet"]])
     deff("tab_label_durs", "string * Q", [ctuple([cstr(u), cq(Fraction(v))]) for u, v in T["label_durs"]])
     deff("tab_dot_mult", "Q", [cq(Fraction(v)) for v in T["dot_mult"]])
-    deff("tab_freq", "(Z * Z) * option Z",
-         [ctuple([ctuple([cz(m), cz(int(a4))]), _res(r, cz)]) for (m, a4), r in T["freq"]])
-    deff("tab_freq_off", "(Z * Z) * option Z",
-         [ctuple([ctuple([cz(m), cz(k)]), _res(r, cz)]) for (m, k), r in T["freq_off"]])
+    deff("tab_freq", "(Z * Z) * option Z", [ctuple([ctuple([cz(m), cz(int(a4))]), _res(r, cz)]) for (m, a4), r in T["freq"]])
+    deff("tab_freq_off", "(Z * Z) * option Z", [ctuple([ctuple([cz(m), cz(k)]), _res(r, cz)]) for (m, k), r in T["freq_off"]])
     L.append("Definition mode_spellings : list (Z * string) := [%s]." %
              "; ".join(ctuple([cz(i), cstr(str(MODES[i][1]).strip('"'))]) for i in range(len(MODES))))
     core.write_gen("C12_Tab", "\n".join(L) + "\n")
@@ -163,7 +306,8 @@ def gen(T=None):
 
 
 # ----------------------------------------------------------------------------
-# Python mirror of the table predicates (used to name a concrete failing input)
+# Direct oracle: the property statement evaluated on the tabulated results (Python mirror of
+# the table predicates of Proofs/C12.v; this is what names a concrete failing input)
 
 BASE = {"C": 0, "D": 2, "E": 4, "F": 5, "G": 7, "A": 9, "B": 11}
 MAJ = ["Cb", "Gb", "Db", "Ab", "Eb", "Bb", "F", "C", "G", "D", "A", "E", "B", "F#", "C#"]
@@ -171,6 +315,26 @@ MIN = ["Ab", "Eb", "Bb", "F", "C", "G", "D", "A", "E", "B", "F#", "C#", "G#", "D
 LAB = {"long": 16, "breve": 8, "whole": 4, "half": 2, "h": 2, "quarter": 1, "q": 1, "eighth": Fraction(1, 2),
        "e": Fraction(1, 2), "16th": Fraction(1, 4), "32nd": Fraction(1, 8), "64th": Fraction(1, 16),
        "128th": Fraction(1, 32), "256th": Fraction(1, 64)}
+
+
+def midi_of(st, al, oc):
+    """twelve-tone arithmetic, C4 = 60; None when the step is no letter A-G (either case)"""
+    b = BASE.get(str(st).upper()) if isinstance(st, str) and len(st) == 1 else None
+    if b is None or not isinstance(al, int) or not isinstance(oc, int):
+        return None
+    return 12 * (oc + 1) + b + al
+
+
+def parse_spec(n):
+    """reading of a string of the grammar [A-G][xb#]*digits: (step, one semitone per sign, octave)"""
+    i = 1
+    while i < len(n) and n[i] in ACC_ALPHABET:
+        i += 1
+    return (n[0], sign_value(n[1:i]), int(n[i:])), n[1:i] in DOC_ACC
+
+
+def dot_mult(k):
+    return 2 - Fraction(1, 2 ** k)
 
 
 def interval_semitones_spec(num, q):
@@ -184,72 +348,164 @@ def interval_semitones_spec(num, q):
     return None if off is None else major + off
 
 
+def mode_class(mode):
+    if mode in ("minor", -1):
+        return "minor"
+    if mode in ("major", None, "none", 1):
+        return "major"
+    return None
+
+
+def key_expect(f, mode):
+    mc = mode_class(mode)
+    if mc is None or not (-7 <= f <= 7):
+        return None
+    return (MIN[f + 7] + "m") if mc == "minor" else MAJ[f + 7]
+
+
+def close(v, e, rel=Fraction(1, 10 ** 9)):
+    try:
+        return abs(Fraction(v) - e) <= rel * abs(e)
+    except Exception:
+        return False
+
+
 def oracle(T):
-    """Yield (function, input, got, expected) for every table row violating C12."""
+    """Return [(function, input, got, expected)] for every table row violating C12."""
     bad = []
+    # --- spelling -> MIDI pitch
     for (st, al, oc), r in T["ps_to_midi"]:
-        exp = ("ok", 12 * (oc + 1) + BASE[st.upper()] + al)
+        exp = ("ok", midi_of(st, al, oc))
         if r != exp:
             bad.append(("pitch_spelling_to_midi_pitch", (st, al, oc), r, exp))
+    for (st, al, oc), r in T["ps_to_midi_lower"]:
+        if r[0] == "ok" and r[1] != midi_of(st, al, oc):
+            bad.append(("pitch_spelling_to_midi_pitch", (st, al, oc), r, ("ok", midi_of(st, al, oc))))
     for (st, oc), r in T["ps_to_midi_none"]:
-        exp = ("ok", 12 * (oc + 1) + BASE[st] + 0)
+        exp = ("ok", midi_of(st, 0, oc))
         if r != exp:
             bad.append(("pitch_spelling_to_midi_pitch", (st, None, oc), r, exp))
+    for (st, al, oc), r in T["note_midi"]:
+        exp = ("ok", midi_of(st, al or 0, oc))
+        if r != exp:
+            bad.append(("Note(step, octave, alter).midi_pitch", (st, oc, al), r, exp))
+    for (st, al, oc), r in T["note_midi_lower"]:
+        if r[0] == "ok" and r[1] != midi_of(st, al, oc):
+            bad.append(("Note(step, octave, alter).midi_pitch", (st, oc, al), r, ("ok", midi_of(st, al, oc))))
+    # --- MIDI pitch -> spelling: any well-formed spelling that sounds the pitch (the inverse direction)
     for m, r in T["midi_to_ps"]:
-        ok = r[0] == "ok" and r[1][0] in BASE and r[1][1] in (0, 1) and 12 * (r[1][2] + 1) + BASE[r[1][0]] + r[1][1] == m
-        if not ok:
-            bad.append(("midi_pitch_to_pitch_spelling", m, r, "a spelling sounding %d" % m))
-    nn = dict(T["note_name"])
+        if not (r[0] == "ok" and r[1][0] in BASE and midi_of(*r[1]) == m):
+            bad.append(("midi_pitch_to_pitch_spelling", m, r, "a spelling (step A-G, alter, octave) sounding %d" % m))
+    for (st, al), r in T["step2pc"]:
+        exp = ("ok", (BASE[st] + al) % 12)
+        if r != exp:
+            bad.append(("step2pc", (st, al), r, exp))
+    # --- note names: printing then reading gives the spelling back (octave >= 0: the grammar has no sign)
     parse = {n: (r, m) for n, r, m in T["name_parse"]}
-    seen = {}
     for (st, al, oc), r in T["note_name"]:
-        if r[0] != "ok":
+        if r[0] != "ok" or not isinstance(r[1], str):
             bad.append(("pitch_spelling_to_note_name", (st, al, oc), r, "a name"))
             continue
-        if r[1] in seen:
-            bad.append(("pitch_spelling_to_note_name", (st, al, oc), r, "injective (also %s)" % (seen[r[1]],)))
-        seen[r[1]] = (st, al, oc)
-        if oc >= 0:  # the documented grammar has no sign: an inverse exists for octave >= 0
+        if oc >= 0:
             pr, pm = parse[r[1]]
             if pr != ("ok", (st, al, oc)):
-                bad.append(("note_name_to_pitch_spelling", r[1], pr, ("ok", (st, al, oc))))
-            if pm != ("ok", 12 * (oc + 1) + BASE[st] + al):
-                bad.append(("note_name_to_midi_pitch", r[1], pm, 12 * (oc + 1) + BASE[st] + al))
-    for (st, ai, oc), r, m in T["name_alt"]:
-        al = ALT_SPELL[ai][1]
-        nm = st + ALT_SPELL[ai][0] + str(oc)
+                bad.append(("note_name_to_pitch_spelling(pitch_spelling_to_note_name(%r,%d,%d))" % (st, al, oc), r[1], pr, ("ok", (st, al, oc))))
+            if pm != ("ok", midi_of(st, al, oc)):
+                bad.append(("note_name_to_midi_pitch(pitch_spelling_to_note_name(%r,%d,%d))" % (st, al, oc), r[1], pm, ("ok", midi_of(st, al, oc))))
+    for n, r, m in T["name_grammar"]:
+        (st, al, oc), documented = parse_spec(n)
+        if r[0] != "ok":
+            if documented:
+                bad.append(("note_name_to_pitch_spelling", n, r, ("ok", (st, al, oc))))
+            continue
         if r != ("ok", (st, al, oc)):
-            bad.append(("note_name_to_pitch_spelling", nm, r, ("ok", (st, al, oc))))
-        if m != ("ok", 12 * (oc + 1) + BASE[st] + al):
-            bad.append(("note_name_to_midi_pitch", nm, m, 12 * (oc + 1) + BASE[st] + al))
-    for (f, mi), r in T["key_name"]:
-        mode = MODES[mi][0]
-        if mode in ("minor", -1):
-            lst, suf = MIN, "m"
-        elif mode in ("major", None, "none", 1):
-            lst, suf = MAJ, ""
-        else:
-            lst = None
-        if lst is None or not (-7 <= f <= 7):
-            exp = "rejected"
-            if r[0] == "ok":
-                bad.append(("fifths_mode_to_key_name", (f, mode), r, exp))
-        else:
-            exp = ("ok", lst[f + 7] + suf)
-            if r != exp:
-                bad.append(("fifths_mode_to_key_name", (f, mode), r, exp))
+            bad.append(("note_name_to_pitch_spelling", n, r, ("ok", (st, al, oc))))
+        if m != ("ok", midi_of(st, al, oc)):
+            bad.append(("note_name_to_midi_pitch", n, m, ("ok", midi_of(st, al, oc))))
+    for (st, sg), r in T["ensure_sign"]:
+        exp = ("ok", (st.upper(), sign_value(sg), 4))
+        if r != exp:
+            bad.append(("ensure_pitch_spelling_format", (st, sg, 4), r, exp))
+    for (st, al, oc), r in T["ensure_int"]:
+        exp = ("ok", (st.upper(), al, oc))
+        if r != exp:
+            bad.append(("ensure_pitch_spelling_format", (st, al, oc), r, exp))
+    for al, r in T["note_alter_sign"]:
+        # the sign must read back as the alteration; alterations -2..2 and None are documented for Note
+        if r[0] == "ok":
+            if not isinstance(r[1], str) or any(c not in ACC_ALPHABET for c in r[1]) or sign_value(r[1]) != (al or 0):
+                bad.append(("Note('C', 4, alter).alter_sign", al, r, "signs worth %d semitone(s)" % (al or 0)))
+        elif al is None or -2 <= al <= 2:
+            bad.append(("Note('C', 4, alter).alter_sign", al, r, "a sign"))
+    # --- constant tables agree with each other
+    bp, mb = dict(T["base_pc"]), dict(T["midi_base_class"])
+    for st in STEPS7:
+        if bp.get(st) != BASE[st]:
+            bad.append(("BASE_PC", st, bp.get(st), BASE[st]))
+        if mb.get(st.lower()) != BASE[st]:
+            bad.append(("MIDI_BASE_CLASS", st.lower(), mb.get(st.lower()), BASE[st]))
+    si, sl = dict(T["steps_idx"]), dict(T["steps_letter"])
+    for st in STEPS7:
+        if st not in si or sl.get(si[st]) != st:
+            bad.append(("STEPS[STEPS[step]]", st, sl.get(si.get(st)), st))
+    for i in range(7):
+        if i not in sl or si.get(sl[i]) != i:
+            bad.append(("STEPS[STEPS[index]]", i, si.get(sl.get(i)), i))
+    for n in range(1, 8):  # step order x base pitch classes x interval sizes: the n-th step above C lies a major/perfect n above it
+        e = interval_semitones_spec(n, "P" if n in (1, 4, 5) else "M")
+        got = bp.get(sl.get(n - 1))
+        if got != e:
+            bad.append(("BASE_PC[STEPS[%d]] vs size of the major/perfect %d" % (n - 1, n), n, got, e))
+    a2i, i2a = dict(T["alt_to_int"]), dict(T["int_to_alt"])
+    for k, v in T["alt_to_int"]:
+        if sign_value(k) != v:
+            bad.append(("ALT_TO_INT", k, v, sign_value(k)))
+    for i, s in T["int_to_alt"]:
+        if a2i.get(s) != i:
+            bad.append(("ALT_TO_INT[INT_TO_ALT[i]]", i, a2i.get(s), i))
+    for k, v in T["sign_to_alter"]:
+        if v is not None and sign_value(k) != v:
+            bad.append(("SIGN_TO_ALTER", k, v, sign_value(k)))
+    its = dict(T["interval_to_semitones"])
+    for n in range(1, 8):
+        for q in QUALS:
+            e = interval_semitones_spec(n, q)
+            if e is not None and its.get(q + str(n)) != e:
+                bad.append(("INTERVAL_TO_SEMITONES", q + str(n), its.get(q + str(n)), e))
+    # --- keys
+    for tab, fn in (("key_name", "fifths_mode_to_key_name"), ("keysig_name", "KeySignature(fifths, mode).name")):
+        for (f, mi), r in T[tab]:
+            mode = MODES[mi][0]
+            e = key_expect(f, mode)
+            if e is None:
+                if r[0] == "ok":
+                    bad.append((fn, (f, mode), r, "rejected"))
+            elif r != ("ok", e):
+                bad.append((fn, (f, mode), r, ("ok", e)))
     kp = dict(T["key_parse"])
     for f in range(-7, 8):
-        for lst, suf, mode in ((MAJ, "", "major"), (MIN, "m", "minor")):
-            n = lst[f + 7] + suf
+        for mode in ("major", "minor"):
+            n = key_expect(f, mode)
             if kp.get(n) != ("ok", (f, mode)):
                 bad.append(("key_name_to_fifths_mode", n, kp.get(n), ("ok", (f, mode))))
-    for tab, fn, mn, mj in (("mode_int", "key_mode_to_int", -1, 1), ("int_mode", "key_int_to_mode", "minor", "major")):
-        for mi, r in T[tab]:
-            mode = MODES[mi][0]
-            exp = ("ok", mn) if mode in ("minor", -1) else ("ok", mj) if mode in ("major", None, "none", 1) else None
-            if (exp is None and r[0] == "ok") or (exp is not None and r != exp):
-                bad.append((fn, mode, r, exp or "rejected"))
+    # --- mode and clef codes decode to what was encoded
+    mint, mstr, mrt = dict(T["mode_int"]), dict(T["int_mode"]), dict(T["mode_rt"])
+    canon = {"major": mint[0], "minor": mint[1]}  # codes of the spellings "major" / "minor"
+    if canon["major"][0] != "ok" or canon["minor"][0] != "ok" or canon["major"] == canon["minor"]:
+        bad.append(("key_mode_to_int", ("major", "minor"), (canon["major"], canon["minor"]), "two different codes"))
+    for mi, (mode, _) in enumerate(MODES):
+        mc = mode_class(mode)
+        if mc is None:
+            for tab, fn in ((mint, "key_mode_to_int"), (mstr, "key_int_to_mode")):
+                if tab[mi][0] == "ok":
+                    bad.append((fn, mode, tab[mi], "rejected"))
+            continue
+        if mstr[mi] != ("ok", mc):
+            bad.append(("key_int_to_mode", mode, mstr[mi], ("ok", mc)))
+        if mint[mi] != canon[mc]:
+            bad.append(("key_mode_to_int", mode, mint[mi], "the code of %r: %r" % (mc, canon[mc])))
+        if mrt[mi] != ("ok", mc):
+            bad.append(("key_int_to_mode(key_mode_to_int(mode))", mode, mrt[mi], ("ok", mc)))
     cl = dict(T["clef"])
     cb = dict(T["clef_back"])
     codes = set()
@@ -265,6 +521,7 @@ def oracle(T):
     for i, r in T["clef_back"]:
         if r[0] == "ok" and cl.get(r[1]) != ("ok", i):
             bad.append(("clef_sign_to_int(clef_int_to_sign)", i, r, i))
+    # --- intervals
     classes = set(T["intervalclasses"])
     exp_classes = {q + str(n) for n in range(1, 8) for q in QUALS if interval_semitones_spec(n, q) is not None}
     if classes != exp_classes or len(T["intervalclasses"]) != 39:
@@ -278,30 +535,43 @@ def oracle(T):
             elif r != ("ok", e):
                 bad.append(("Interval.semitones", (num, q, d), r, e))
         else:
-            # an octave class is accepted by validate (8 % 7 = 1); its size must then be defined: 12 + size(q1)
+            # an octave class is accepted by validate (8 % 7 = 1); where a size is given it is 12 + size(q1)
             e = interval_semitones_spec(1, q)
             if e is not None and r[0] == "ok" and r[1] != 12 + e:
                 bad.append(("Interval.semitones", (num, q, d), r, 12 + e))
-    for (u, k), r in T["tempo"]:
-        e = LAB[u] * (2 - Fraction(1, 2 ** k))
-        if r[0] != "ok" or Fraction(r[1]) != e:
-            bad.append(("to_quarter_tempo", (u + "." * k, 1), r, float(e)))
+    # --- tempo units, dotted units, durations
+    for u, v in T["label_durs"]:
+        if not close(v, LAB.get(u, 0), 0):
+            bad.append(("LABEL_DURS", u, v, float(LAB.get(u, 0))))
+    if len(T["dot_mult"]) < 4 or any(Fraction(v) != dot_mult(k) for k, v in enumerate(T["dot_mult"][:4])):
+        bad.append(("DOT_MULTIPLIERS", None, list(T["dot_mult"]), [float(dot_mult(k)) for k in range(4)]))
+    for (u, k, tp), r in T["tempo"]:
+        e = Fraction(tp) * LAB[u] * dot_mult(k)
+        if r[0] != "ok" or not close(r[1], e):
+            bad.append(("to_quarter_tempo", (u + "." * k, tp), r, float(e)))
+    for (u, k, bpm), r in T["mpq"]:
+        e = Fraction(60 * 10 ** 6) / (Fraction(bpm) * LAB[u or "q"] * dot_mult(k))
+        if r[0] != "ok" or abs(e - r[1]) > Fraction(1, 2) + Fraction(1, 10 ** 6):
+            bad.append(("Tempo(bpm, unit).microseconds_per_quarter", (bpm, (u + "." * k) or None), r, "nearest integer to %s" % float(e)))
     for (u, k, an, nn, dv), r in T["symdur"]:
-        e = dv * LAB[u] * (2 - Fraction(1, 2 ** k)) * Fraction(nn, an)
-        if r[0] != "ok" or abs(Fraction(r[1]) - e) > Fraction(1, 10 ** 9) * e:
+        e = dv * LAB[u] * dot_mult(k) * Fraction(nn, an)
+        if r[0] != "ok" or not close(r[1], e):
             bad.append(("symbolic_to_numeric_duration", (u, k, an, nn, dv), r, float(e)))
+    for (an, nn, at, nt), r in T["tuplet"]:
+        e = Fraction(nn, an) if at == nt else Fraction(nn, an) * LAB[nt] / LAB[at]
+        if r[0] != "ok" or not close(r[1], e):
+            bad.append(("Tuplet(actual_notes, normal_notes, actual_type, normal_type).duration_multiplier", (an, nn, at or None, nt or None), r, str(e)))
+    # --- frequency
     for (m, a4), r in T["freq"]:
         if r != ("ok", m):
             bad.append(("frequency_to_midi_pitch(midi_pitch_to_frequency)", (m, a4), r, m))
     for (m, a4), r in T["freq_val"]:
-        e = a4 / 32.0 * 2.0 ** ((m - 9) / 12.0)
+        e = a4 * 2.0 ** ((m - 69) / 12.0)
         if r[0] != "ok" or abs(r[1] - e) > 1e-9 * e:
             bad.append(("midi_pitch_to_frequency", (m, a4), r, e))
     for (m, k), r in T["freq_off"]:
         if r != ("ok", m):
             bad.append(("frequency_to_midi_pitch(freq(m) detuned by %d/10 semitone)" % k, m, r, m))
-    if T["freq_a4"] != ("ok", 440.0):
-        bad.append(("midi_pitch_to_frequency", 69, T["freq_a4"], 440.0))
     if T["freq_arr"] != ("ok", list(range(128))):
         bad.append(("frequency_to_midi_pitch(array)", "arange(128)", T["freq_arr"][0], "identity"))
     return bad
@@ -321,75 +591,155 @@ def rhe(fr):
     return f if f % 2 == 0 else f + 1
 
 
+# (ppq, mpq, s): 10^6*ppq/mpq is an integer R = 2^(s-1) * odd, so t = odd / 2^s is an EXACT half tick
+TIE_PAIRS = [(480, 500000, 7), (96, 600000, 6), (1, 10 ** 6, 1), (384, 250000, 10), (960, 1000000, 7), (24, 750000, 6)]
+PAIRS = [(480, 500000), (96, 600000), (1000, 333333), (1, 10 ** 6), (384, 250000), (960, 1000000)]
+
+
 def gen_ticks_cases(ctx, n):
+    """(ppq, mpq, t, kind).  Weights: 20% constructed exact half ticks (even and odd floor, a quarter of
+    them negative), 15% k + {0,.25,.5,.75} ticks, 25% dyadic seconds, 10% negative, 10% integer seconds
+    (Python int), 20% uniform floats."""
     rng = ctx.rng
     cases = []
-    pairs = [(480, 500000), (96, 600000), (1000, 333333), (1, 10 ** 6), (384, 250000), (960, 1000000)]
     for i in range(n):
-        ppq, mpq = rng.choice(pairs) if rng.random() < 0.7 else (rng.randint(1, 2000), rng.randint(1000, 2 * 10 ** 6))
         kind = rng.random()
-        if kind < 0.3:  # exact tick multiples and half ticks (dyadic when ppq/mpq allow)
+        if kind < 0.20:
+            ppq, mpq, s = rng.choice(TIE_PAIRS)
+            odd = 2 * rng.randint(0, 1 << rng.choice([3, 8, 14])) + 1
+            t = odd / float(1 << s)
+            if rng.random() < 0.25:
+                t = -t
+            cases.append((ppq, mpq, float(t), "tie"))
+            continue
+        ppq, mpq = rng.choice(PAIRS) if rng.random() < 0.7 else (rng.randint(1, 2000), rng.randint(1000, 2 * 10 ** 6))
+        if kind < 0.35:
             k = rng.randint(0, 100000)
             t = (k + rng.choice([0, 0.5, 0.25, 0.75])) * mpq / (1e6 * ppq)
-        elif kind < 0.6:
+        elif kind < 0.60:
             t = rng.randint(0, 1 << 20) / 1024.0
-        elif kind < 0.7:
+        elif kind < 0.70:
             t = -rng.randint(0, 1 << 12) / 64.0
+        elif kind < 0.80:
+            cases.append((ppq, mpq, rng.randint(0, 4000), "int"))
+            continue
         else:
             t = rng.random() * rng.choice([1, 10, 1000])
-        cases.append((ppq, mpq, float(t)))
+        cases.append((ppq, mpq, float(t), "float"))
     return cases
+
+
+def comparable(ppq, mpq, t):
+    """near-tie rule (DESIGN 2.4): the float evaluation of 1e6*ppq*t/mpq may land on the other side of a
+    half tick; such cases are counted and skipped.  Exact ties are compared when the float product is exact."""
+    exact = Fraction(10 ** 6) * ppq * Fraction(t) / mpq
+    frac = exact - math.floor(exact)
+    if frac != Fraction(1, 2) and abs(frac - Fraction(1, 2)) < Fraction(1, 2 ** 20):
+        return False, exact, frac
+    fl = 1e6 * ppq * t / mpq
+    if Fraction(fl) != exact and abs(Fraction(fl) - exact) > abs(frac - Fraction(1, 2)) / 2:
+        return False, exact, frac
+    return True, exact, frac
 
 
 def run_ticks(ctx):
     import numpy as np
     import partitura.utils.music as M
 
+    rng = ctx.rng
     n = 1500 if ctx.tier == "quick" else 20000
     cases = gen_ticks_cases(ctx, n)
     terms, kept = [], []
     near = 0
-    for ppq, mpq, t in cases:
+    groups = {}
+    for ppq, mpq, t, kind in cases:
         if len(ctx.violations) >= 5:
             break
-        exact = Fraction(10 ** 6) * ppq * Fraction(t) / mpq
-        frac = exact - math.floor(exact)
-        # near-tie rule (DESIGN 2.4): float evaluation of 1e6*ppq*t/mpq may land on the other side
-        if frac != Fraction(1, 2) and abs(frac - Fraction(1, 2)) < Fraction(1, 2 ** 20):
+        ok, exact, frac = comparable(ppq, mpq, t)
+        if not ok:
             near += 1
             continue
-        # an exact tie is only comparable if the float product is exact as well
-        fl = 1e6 * ppq * t / mpq
-        if Fraction(fl) != exact and abs(Fraction(fl) - exact) > abs(frac - Fraction(1, 2)) / 2:
-            near += 1
-            continue
-        r = _try(M.seconds_to_midi_ticks, t, mpq, ppq)
-        ra = _try(lambda: [int(x) for x in M.seconds_to_midi_ticks(np.array([t, t]), mpq, ppq)])
-        back = _try(M.midi_ticks_to_seconds, r[1] if r[0] == "ok" else 0, mpq, ppq)
-        backa = _try(lambda: [float(x) for x in M.midi_ticks_to_seconds(np.array([r[1] if r[0] == "ok" else 0]), mpq, ppq)])
+        r = _int_norm(_try(M.seconds_to_midi_ticks, t, mpq, ppq))
+        # the array path: a 1-d float array, and (for Python ints) an integer array
+        arr = np.array([t, t]) if isinstance(t, float) else np.array([t, t], dtype=rng.choice(["i8", "i4"]))
+        ra = _try(lambda: [int(x) for x in M.seconds_to_midi_ticks(arr, mpq, ppq)])
+        rs = _int_norm(_try(M.seconds_to_midi_ticks, np.float64(t), mpq, ppq))  # numpy scalar = scalar path
+        k0 = r[1] if r[0] == "ok" else 0
+        back = _try(lambda: float(M.midi_ticks_to_seconds(k0, mpq, ppq)))
+        # ticks come as Python ints, int64 arrays and -- in partitura's own note arrays -- int32 arrays
+        bdt = rng.choice(["i8", "i4", "f8"]) if abs(k0) < 2 ** 31 else "i8"
+        backa = _try(lambda: [float(x) for x in M.midi_ticks_to_seconds(np.array([k0], dtype=bdt), mpq, ppq)])
         ctx.evaluations += 1
         spec = rhe(exact)
-        case = {"ppq": ppq, "mpq": mpq, "t": t.hex(), "scalar": r, "array": ra, "back": back, "back_array": backa}
-        if r != ("ok", spec) or ra != ("ok", [spec, spec]):
-            ctx.violation("seconds_to_midi_ticks(%r, mpq=%d, ppq=%d): scalar %r array %r, expected round(1e6*ppq*t/mpq) = %d"
-                          % (t, mpq, ppq, r, ra, spec), case)
+        case = {"ppq": ppq, "mpq": mpq, "t": t.hex() if isinstance(t, float) else t, "scalar": r, "numpy_scalar": rs,
+                "array": ra, "array_dtype": str(arr.dtype), "back": back, "back_array": backa, "back_array_dtype": bdt}
+        if r != ("ok", spec) or ra != ("ok", [spec, spec]) or rs != ("ok", spec):
+            ctx.violation("seconds_to_midi_ticks(%r, mpq=%d, ppq=%d): scalar %r numpy scalar %r array %r, expected round(1e6*ppq*t/mpq) = %d"
+                          % (t, mpq, ppq, r, rs, ra, spec), case)
             continue
         bexp = Fraction(mpq) * spec / (10 ** 6 * ppq)
         okb = back[0] == "ok" and abs(Fraction(back[1]) - bexp) <= abs(bexp) * Fraction(1, 10 ** 12)
         okba = backa[0] == "ok" and abs(Fraction(backa[1][0]) - bexp) <= abs(bexp) * Fraction(1, 10 ** 12)
         if not (okb and okba):
-            ctx.violation("midi_ticks_to_seconds(%d, mpq=%d, ppq=%d) = %r / %r, expected %s" % (spec, mpq, ppq, back, backa, float(bexp)), case)
+            ctx.violation("midi_ticks_to_seconds(%d, mpq=%d, ppq=%d) = %r, with a %s array %r, expected %s" % (spec, mpq, ppq, back, bdt, backa, float(bexp)), case)
             continue
         if frac != 0:
-            ctx.nontrivial(("ticks", ppq, mpq, t.hex()))
-        ctx.count("ticks:" + ("tie" if frac == Fraction(1, 2) else "int" if frac == 0 else "other"))
-        terms.append("(%s, %s, %s, %s)" % (cz(ppq), cz(mpq), core.cfloat_q(t), cz(r[1])))
+            ctx.nontrivial(("ticks", ppq, mpq, case["t"]))
+        tie = frac == Fraction(1, 2)
+        ctx.count("ticks:back_array_" + bdt)
+        ctx.count("ticks:" + ("tie_even_floor" if tie and math.floor(exact) % 2 == 0 else "tie_odd_floor" if tie else "int" if frac == 0 else "other")
+                  + ("_negative" if t < 0 else ""))
+        terms.append("(%s, %s, %s, %s, %s, %s)" % (cz(ppq), cz(mpq), cq(Fraction(t)), cz(r[1]), cq(Fraction(back[1])), cq(Fraction(backa[1][0]))))
         kept.append(case)
+        groups.setdefault((ppq, mpq), []).append((float(t), spec))
+    # one array holding all the (mixed-sign) times of a (ppq, mpq) pair: element-wise the same ticks
+    for (ppq, mpq), lst in sorted(groups.items()):
+        if len(lst) < 2 or len(ctx.violations) >= 5:
+            continue
+        ts = np.array([t for t, _ in lst], dtype=float)
+        for shape in (ts.shape, (1, len(lst))):
+            ra = _try(lambda: [int(x) for x in np.asarray(M.seconds_to_midi_ticks(ts.reshape(shape), mpq, ppq)).ravel()])
+            ctx.evaluations += 1
+            if ra != ("ok", [s for _, s in lst]):
+                got = ra[1] if ra[0] == "ok" else [None] * len(lst)
+                j = next((j for j, (x, (_, s)) in enumerate(zip(got, lst)) if x != s), 0)
+                ctx.violation("seconds_to_midi_ticks(array of %d times, mpq=%d, ppq=%d): element %d (t=%r) is %r, expected %d"
+                              % (len(lst), mpq, ppq, j, lst[j][0], got[j] if ra[0] == "ok" else ra, lst[j][1]),
+                              {"ppq": ppq, "mpq": mpq, "times": [t.hex() for t, _ in lst], "shape": list(shape), "array": ra,
+                               "expected": [s for _, s in lst]})
+                break
+        ctx.count("ticks:whole_group_arrays")
+    # single-precision times (the dtype of partitura's performance note arrays): the tick of the value the
+    # float32 denotes, as an array, as a numpy scalar and as the Python float of the same value
+    n32 = 0
+    for ppq, mpq, t, kind in cases[: max(200, n // 4)]:
+        if len(ctx.violations) >= 5:
+            break
+        t32 = np.float32(t * rng.choice([1, 1, 30, 300]))
+        ok, exact, frac = comparable(ppq, mpq, float(t32))
+        if not ok:
+            near += 1
+            continue
+        spec = rhe(exact)
+        ra = _try(lambda: [int(x) for x in M.seconds_to_midi_ticks(np.array([t32, t32], dtype="f4"), mpq, ppq)])
+        rf = _int_norm(_try(M.seconds_to_midi_ticks, float(t32), mpq, ppq))
+        ctx.evaluations += 1
+        n32 += 1
+        if ra != ("ok", [spec, spec]) or rf != ("ok", spec):
+            ctx.violation("seconds_to_midi_ticks(float32 %r, mpq=%d, ppq=%d): as float32 array %r, as Python float %r, expected round(1e6*ppq*t/mpq) = %d"
+                          % (float(t32), mpq, ppq, ra, rf, spec),
+                          {"ppq": ppq, "mpq": mpq, "t": float(t32).hex(), "dtype": "f4", "array": ra, "scalar": rf, "expected": spec})
+            continue
+        terms.append("(%s, %s, %s, %s, %s, %s)" % (cz(ppq), cz(mpq), cq(Fraction(float(t32))), cz(spec), cq(Fraction(0)), cq(Fraction(0))))
+        kept.append({"ppq": ppq, "mpq": mpq, "t": float(t32).hex(), "dtype": "f4", "array": ra})
+    ctx.count("ticks:float32_arrays", n32)
     ctx.count("ticks:near_tie_skipped", near)
     ctx.sample({"seconds_to_ticks_case": kept[0]} if kept else "none")
     failing = ctx.coq_failing("ticks", "From PV Require Import Model.C12.", "",
-                              terms, "fun c => match c with (ppq, mpq, t, k) => Z.eqb (sec_to_tick ppq mpq t) k end")
-    ctx.obligation("correspondence: model sec_to_tick = seconds_to_midi_ticks on %d sampled triples (scalar and array)" % len(terms),
+                              terms, "fun c => match c with (ppq, mpq, t, k, b, ba) => Z.eqb (sec_to_tick ppq mpq t) k && "
+                              "(Qeq_bool b 0 || q_close b (tick_to_sec ppq mpq k)) && (Qeq_bool ba 0 || q_close ba (tick_to_sec ppq mpq k)) end")
+    ctx.obligation("correspondence: model sec_to_tick = seconds_to_midi_ticks and tick_to_sec = midi_ticks_to_seconds (rel. 1e-9) on %d sampled triples "
+                   "(Python float/int, numpy scalar, arrays)" % len(terms),
                    not failing, failing[:5])
     for i in failing[:5]:
         ctx.violation("model/implementation disagree on seconds_to_midi_ticks case", kept[i])
@@ -397,51 +747,179 @@ def run_ticks(ctx):
 
 def run_beyond(ctx):
     """Sampled correspondence BEYOND the tabulated domains: the unbounded theorems are about the
-    hand model; this ties the model to the code also outside octaves -1..9 / pitches 0..127."""
+    hand model; this ties the model to the code also outside octaves -1..9 / pitches 0..127 /
+    alterations -3..3 / one-digit octaves / fifths -12..12."""
     import partitura.utils.music as M
+    import partitura.score as S
     rng = ctx.rng
     n = 600 if ctx.tier == "quick" else 6000
     terms, kept = [], []
+
+    def viol(what, obj):
+        if len(ctx.violations) < 10:
+            ctx.violation(what, obj)
+
     for i in range(n):
-        st = rng.choice(STEPS7 + [s.lower() for s in STEPS7])
+        st = rng.choice(STEPS7)
         al, oc = rng.randint(-12, 12), rng.randint(-60, 120)
-        r = _try(M.pitch_spelling_to_midi_pitch, st, al, oc)
+        r = _int_norm(_try(M.pitch_spelling_to_midi_pitch, st, al, oc))
+        rn = _int_norm(_try(lambda: S.Note(step=st, octave=oc, alter=al).midi_pitch))
+        pc = _int_norm(_try(M.step2pc, st, al))
         m = rng.randint(-600, 1500)
-        r2 = _try(M.midi_pitch_to_pitch_spelling, m)
-        ctx.evaluations += 2
-        exp = 12 * (oc + 1) + BASE[st.upper()] + al
-        if r != ("ok", exp):
-            ctx.violation("pitch_spelling_to_midi_pitch(%r,%d,%d) = %r, expected %d" % (st, al, oc, r, exp),
-                          {"function": "pitch_spelling_to_midi_pitch", "args": [st, al, oc], "got": r, "expected": exp})
+        r2 = _ps_norm(_try(M.midi_pitch_to_pitch_spelling, m))
+        ctx.evaluations += 4
+        exp = midi_of(st, al, oc)
+        if r != ("ok", exp) or rn != ("ok", exp):
+            viol("pitch_spelling_to_midi_pitch(%r,%d,%d) = %r, Note.midi_pitch = %r, expected %d" % (st, al, oc, r, rn, exp),
+                 {"function": "pitch_spelling_to_midi_pitch", "args": [st, al, oc], "got": [r, rn], "expected": exp})
             continue
-        ok2 = r2[0] == "ok" and r2[1][0] in BASE and r2[1][1] in (0, 1) and 12 * (r2[1][2] + 1) + BASE[r2[1][0]] + r2[1][1] == m
-        if not ok2:
-            ctx.violation("midi_pitch_to_pitch_spelling(%d) = %r does not sound %d" % (m, r2, m),
-                          {"function": "midi_pitch_to_pitch_spelling", "args": [m], "got": r2, "expected": "a spelling sounding %d" % m})
+        if pc != ("ok", exp % 12):
+            viol("step2pc(%r,%d) = %r, expected %d" % (st, al, pc, exp % 12),
+                 {"function": "step2pc", "args": [st, al], "got": pc, "expected": exp % 12})
+            continue
+        if not (r2[0] == "ok" and r2[1][0] in BASE and midi_of(*r2[1]) == m):
+            viol("midi_pitch_to_pitch_spelling(%d) = %r does not sound %d" % (m, r2, m),
+                 {"function": "midi_pitch_to_pitch_spelling", "args": [m], "got": r2, "expected": "a spelling sounding %d" % m})
             continue
         ctx.nontrivial(("beyond", st, al, oc, m))
-        terms.append("(%s, %s, %s, %s, %s, (%s, %s, %s))" % (cstr(st), cz(al), cz(oc), cz(r[1]), cz(m), cstr(r2[1][0]), cz(r2[1][1]), cz(r2[1][2])))
-        kept.append({"ps": [st, al, oc], "midi": r[1], "m": m, "spelling": r2[1]})
-    ctx.count("beyond_domain_cases", len(terms))
-    failing = ctx.coq_failing("beyond", "From PV Require Import Lib.Base Model.C12.", "", terms,
-                              "fun c => match c with (s, a, o, r, m, (s2, a2, o2)) => zopt_eqb (ps_to_midi s a o) (Some r) && "
-                              "(let '(ms, ma, mo) := midi_to_ps m in String.eqb ms s2 && Z.eqb ma a2 && Z.eqb mo o2) end")
-    ctx.obligation("correspondence: model ps_to_midi / midi_to_ps = implementation on %d sampled inputs beyond the tabulated domain" % len(terms),
+        terms.append("(%s, %s, %s, %s, %s, %s, (%s, %s, %s))" % (cstr(st), cz(al), cz(oc), cz(r[1]), cz(pc[1]), cz(m),
+                                                                   cstr(r2[1][0]), cz(r2[1][1]), cz(r2[1][2])))
+        kept.append({"ps": [st, al, oc], "midi": r[1], "pc": pc[1], "m": m, "spelling": r2[1]})
+    ctx.count("beyond:spelling_and_midi_cases", len(terms))
+    failing = ctx.coq_failing("beyond", "From PV Require Import Lib.Base Model.C12 Gen.C12_Tab.", "", terms,
+                              "fun c => match c with (s, a, o, r, pc, m, sp) => zopt_eqb (ps_to_midi s a o) (Some r) && "
+                              "zopt_eqb (step2pc s a) (Some pc) && sounds m sp && psopt_eqb (midi_to_ps_with tab_dummy_ps m) (Some sp) end")
+    ctx.obligation("correspondence: model ps_to_midi / step2pc / midi_to_ps_with (the code's own table) = implementation on %d sampled inputs beyond the tabulated domain" % len(terms),
                    not failing, failing[:5])
     for i in failing[:5]:
         ctx.violation("model/implementation disagree beyond the tabulated domain", kept[i])
 
+    # note names beyond one-digit octaves / the tabulated accidental strings
+    terms, kept = [], []
+    accs = all_acc_strings(3)
+    for i in range(n):
+        st = rng.choice(STEPS7)
+        if rng.random() < 0.5:  # print then read
+            al, oc = rng.randint(-3, 3), rng.choice([rng.randint(0, 12), rng.randint(10, 10 ** 6)])
+            rn = _try(M.pitch_spelling_to_note_name, st, al, oc)
+            ctx.evaluations += 1
+            if rn[0] != "ok" or not isinstance(rn[1], str):
+                viol("pitch_spelling_to_note_name(%r,%d,%d) = %r" % (st, al, oc, rn),
+                     {"function": "pitch_spelling_to_note_name", "args": [st, al, oc], "got": rn, "expected": "a name"})
+                continue
+            name, want = rn[1], (st, al, oc)
+        else:  # a string of the grammar
+            acc = rng.choice(DOC_ACC) if rng.random() < 0.6 else rng.choice(accs)
+            octs = str(rng.choice([rng.randint(0, 12), rng.randint(10, 10 ** 6)]))
+            if rng.random() < 0.1:
+                octs = "0" * rng.randint(1, 2) + octs
+            name, want = st + acc + octs, None
+        rp = _ps_norm(_try(M.note_name_to_pitch_spelling, name))
+        rm = _int_norm(_try(M.note_name_to_midi_pitch, name))
+        ctx.evaluations += 2
+        try:
+            (pst, pal, poc), documented = parse_spec(name)
+        except Exception:
+            pst = None
+        if pst is None or pal is None:
+            if want is not None:
+                viol("pitch_spelling_to_note_name%r = %r is not a string of the grammar [A-G][xb#]*digits" % (want, name),
+                     {"function": "pitch_spelling_to_note_name", "args": list(want), "got": name, "expected": "step, signs, octave"})
+            continue
+        if want is not None and (rp != ("ok", want) or rm != ("ok", midi_of(*want))):
+            viol("note_name_to_pitch_spelling(pitch_spelling_to_note_name%r = %r) = %r, MIDI pitch %r" % (want, name, rp, rm),
+                 {"function": "note_name_to_pitch_spelling", "args": [name], "got": [rp, rm], "expected": [list(want), midi_of(*want)]})
+            continue
+        if rp[0] == "ok" and (rp != ("ok", (pst, pal, poc)) or rm != ("ok", midi_of(pst, pal, poc))):
+            viol("note_name_to_pitch_spelling(%r) = %r, MIDI pitch %r; by twelve-tone arithmetic %r" % (name, rp, rm, (pst, pal, poc)),
+                 {"function": "note_name_to_pitch_spelling", "args": [name], "got": [rp, rm], "expected": [[pst, pal, poc], midi_of(pst, pal, poc)]})
+            continue
+        if rp[0] != "ok" and documented:
+            viol("note_name_to_pitch_spelling(%r) rejected: %r" % (name, rp),
+                 {"function": "note_name_to_pitch_spelling", "args": [name], "got": rp, "expected": [pst, pal, poc]})
+            continue
+        ctx.nontrivial(("name", name))
+        ctx.count("beyond:name_" + ("printed" if want is not None else "documented" if documented else "undocumented_signs"))
+        terms.append("(%s, %s, %s)" % (cstr(name), _res(rp, _ps3) if rp[0] == "ok" else "None", _res(rm, cz)))
+        kept.append({"name": name, "spelling": rp, "midi": rm})
+    failing = ctx.coq_failing("names", "From PV Require Import Lib.Base Model.C12.", "", terms,
+                              "fun c => match c with (n, r, m) => parse_agrees n r && "
+                              "match r with Some (s, a, o) => zopt_eqb m (ps_to_midi s a o) | None => true end end")
+    ctx.obligation("correspondence: model parse_name = note_name_to_pitch_spelling / note_name_to_midi_pitch on %d names beyond the tabulated ones "
+                   "(printed names with octaves up to 10^6, strings of the grammar)" % len(terms), not failing, failing[:5])
+    for i in failing[:5]:
+        ctx.violation("model/implementation disagree on a note name", kept[i])
+
+    # fifths outside -12..12 are rejected as well (function and KeySignature.name)
+    terms, kept = [], []
+    for i in range(n // 3):
+        f = rng.choice([-1, 1]) * rng.choice([rng.randint(8, 40), rng.randint(13, 10 ** 4)]) if rng.random() < 0.8 else rng.randint(-7, 7)
+        mi = rng.randrange(len(MODES))
+        mode = MODES[mi][0]
+        r = _try(M.fifths_mode_to_key_name, f, mode)
+        rk = _try(lambda: S.KeySignature(f, mode).name)
+        ctx.evaluations += 2
+        e = key_expect(f, mode)
+        if (e is None and (r[0] == "ok" or rk[0] == "ok")) or (e is not None and (r != ("ok", e) or rk != ("ok", e))):
+            viol("fifths_mode_to_key_name(%d, %r) = %r, KeySignature.name = %r, expected %s" % (f, mode, r, rk, e or "rejected"),
+                 {"function": "fifths_mode_to_key_name", "args": [f, MODES[mi][1]], "got": [r, rk], "expected": e or "rejected"})
+            continue
+        ctx.nontrivial(("fifths", f, mi))
+        terms.append("(%s, %s, %s)" % (cz(f), cz(mi), _sres(r)))
+        kept.append({"fifths": f, "mode": MODES[mi][1], "name": r})
+    ctx.count("beyond:fifths_cases", len(terms))
+    failing = ctx.coq_failing("fifths", "From PV Require Import Lib.Base Lib.Tab Model.C12.", "", terms,
+                              "fun c => match c with (f, mi, r) => sopt_eqb r (key_name_sp f mi) end")
+    ctx.obligation("correspondence: model key_name_sp = fifths_mode_to_key_name on %d sampled (fifths, mode spelling) incl. |fifths| up to 10^4" % len(terms),
+                   not failing, failing[:5])
+    for i in failing[:5]:
+        ctx.violation("model/implementation disagree on fifths_mode_to_key_name", kept[i])
+
+    # Tempo.microseconds_per_quarter on sampled tempi
+    terms, kept = [], []
+    units = sorted(LAB)
+    for i in range(n):
+        u, k = rng.choice(units), rng.randint(0, 3)
+        bpm = rng.choice([rng.randint(10, 400), rng.randint(10 * 64, 400 * 64) / 64.0, round(rng.uniform(10, 400), 2)])
+        r = _int_norm(_try(lambda: S.Tempo(bpm, u + "." * k).microseconds_per_quarter))
+        ctx.evaluations += 1
+        e = Fraction(60 * 10 ** 6) / (Fraction(bpm) * LAB[u] * dot_mult(k))
+        if r[0] != "ok" or abs(e - r[1]) > Fraction(1, 2) + Fraction(1, 10 ** 6):
+            viol("Tempo(%r, %r).microseconds_per_quarter = %r, expected the integer nearest to %s" % (bpm, u + "." * k, r, float(e)),
+                 {"function": "Tempo.microseconds_per_quarter", "args": [bpm, u + "." * k], "got": r, "expected": float(e)})
+            continue
+        ctx.nontrivial(("mpq", u, k, bpm))
+        terms.append("(%s, %s, %s, %s)" % (cstr(u), cz(k), cq(Fraction(bpm)), cz(r[1])))
+        kept.append({"unit": u + "." * k, "bpm": bpm, "mpq": r[1]})
+    ctx.count("beyond:mpq_cases", len(terms))
+    failing = ctx.coq_failing("mpq", "From PV Require Import Lib.Base Model.C12.", "", terms,
+                              "fun c => match c with (u, k, bpm, x) => match mpq_exact u k bpm with Some e => mpq_nearest x e | None => false end end")
+    ctx.obligation("correspondence: Tempo.microseconds_per_quarter is the integer nearest to the model's mpq_exact on %d sampled (unit, dots, bpm)" % len(terms),
+                   not failing, failing[:5])
+    for i in failing[:5]:
+        ctx.violation("model/implementation disagree on Tempo.microseconds_per_quarter", kept[i])
+
 
 def run(ctx):
-    ctx.rule = ("T2: every function named by C12 is executed on its whole finite domain (539 spellings, 128 MIDI pitches, "
-                "25x9 fifths/mode spellings, 30 key names, 8x7x2 intervals, 14 units x 4 dots x 7 tuplet ratios x 3 divisions, "
-                "128x3 frequencies) and the resulting graph is re-proved in the Coq kernel; sampled (ppq,mpq,t) triples for "
-                "seconds<->ticks.  Non-trivial = table rows with alter<>0 or octave<>4 or an out-of-range/rejected argument, "
-                "and tick cases with a fractional tick.")
+    ctx.rule = ("T2: every function and constant table named by C12 is executed / read on its whole finite domain (539 spellings "
+                "for the function, Note.midi_pitch and the printed names, 128 MIDI pitches, 7x7 pitch classes, 567 strings of the "
+                "note-name grammar (8 documented accidental strings x 6 octave strings incl. multi-digit, all 32 other strings of "
+                "up to 3 signs), 25x9 fifths/mode spellings for the function and KeySignature.name, 30 key names, 8x7x2 intervals, "
+                "14 units x 4 dots x 5 tempi, x 15 bpm values, x 7 tuplet ratios x 3 divisions, 6 ratios x 14x14 tuplet types, "
+                "128x3 frequencies) and the resulting graph is re-proved in the Coq kernel.  Sampled streams (from VERIF_SEED): "
+                "(ppq,mpq,t) triples -- 20% constructed exact half ticks t = odd/2^s for pairs with integer 10^6*ppq/mpq (even and "
+                "odd floor, a quarter negative), 15% k+{0,.25,.5,.75} ticks, 25% dyadic, 10% negative, 10% Python int, 20% uniform; "
+                "each through the scalar, numpy-scalar, 1-d array and whole-group (mixed sign, 1-d and 2-d) array paths; spellings "
+                "with alter -12..12 / octave -60..120, MIDI pitches -600..1500, printed names with octaves up to 10^6, grammar "
+                "strings (60% documented accidentals), fifths up to +-10^4, tempi 10..400 bpm.  Non-trivial = table rows with "
+                "alter<>0 or octave<>4 or an out-of-range/rejected argument, tick cases with a fractional tick, every distinct "
+                "sampled beyond-domain input.")
     ctx.trusted = ["Coq 8.16.1 kernel incl. vm_compute", "T2 tabulator harness/props/c12.py (runs the real functions, prints Coq literals)",
                    "Python-side oracle used only to name the failing row", "determinism of the tabulated pure functions"]
     ctx.assumptions = ["floats in tables are converted to the exact rationals they denote",
-                       "near-tie tick cases (exact value within 2^-20 of .5 but not on it) are counted and skipped"]
+                       "near-tie tick cases (exact value within 2^-20 of .5 but not on it) are counted and skipped",
+                       "float-valued results (tempo, durations, frequencies) are compared with relative tolerance 1e-9; "
+                       "microseconds_per_quarter within 1/2 + 1e-6 of the exact value"]
     T = gen()
     n_rows = 0
     for k, v in T.items():
@@ -449,16 +927,23 @@ def run(ctx):
             n_rows += len(v)
             ctx.count("rows:" + k, len(v))
     ctx.evaluations += n_rows
+    ctx.extra["dummy_spelling_table_source"] = T["dummy_ps_source"]
     for (st, al, oc), r in T["ps_to_midi"]:
         if al != 0 or oc != 4:
             ctx.nontrivial(("ps", st, al, oc))
     for (f, mi), r in T["key_name"]:
         if abs(f) > 7 or mi >= 6:
             ctx.nontrivial(("key", f, mi))
+    for n, r, m in T["name_grammar"]:
+        ctx.nontrivial(("gram", n))
+    for k, r in T["tuplet"] + T["mpq"]:
+        ctx.nontrivial(("row", k))
     ctx.sample({"table": "key_name", "row": [T["key_name"][0][0], T["key_name"][0][1]]})
     ctx.sample({"table": "ps_to_midi", "row": [T["ps_to_midi"][5][0], T["ps_to_midi"][5][1]]})
+    ctx.sample({"table": "name_grammar", "row": list(T["name_grammar"][200])})
+    ctx.sample({"table": "tuplet", "row": [T["tuplet"][17][0], str(T["tuplet"][17][1])]})
     bad = oracle(T)
-    ok, why = ctx.coq_props(expect_min=10)
+    ok, why = ctx.coq_props(expect_min=40)
     for fn, arg, got, exp in bad[:10]:
         ctx.violation("%s(%r) = %r, expected %r" % (fn, arg, got, exp), {"function": fn, "args": arg, "got": got, "expected": exp})
     if not ok and not bad:
@@ -467,16 +952,30 @@ def run(ctx):
         run_ticks(ctx)
         run_beyond(ctx)
     ctx.extra["exhaustive"] = True
-    ctx.extra["exhaustive_note"] = "finite domains named by the property are enumerated completely; the ticks stream is sampled"
+    ctx.extra["exhaustive_note"] = "finite domains named by the property are enumerated completely; the ticks / beyond-domain streams are sampled"
 
 
 def replay(obj):
+    """Re-run one stored replay on the implementation and print both sides."""
+    import numpy as np
     import partitura.utils.music as M
-    import partitura.score as S
     print(json_dumps(obj))
     r = obj.get("replay", {})
-    if "function" in r:
-        print("re-run the named function on args:", r["function"], r["args"], "->", "expected", r["expected"])
+    if "ppq" in r and "t" in r:
+        t = float.fromhex(r["t"]) if isinstance(r["t"], str) else r["t"]
+        exact = Fraction(10 ** 6) * r["ppq"] * Fraction(t) / r["mpq"]
+        print("seconds_to_midi_ticks(%r, mpq=%d, ppq=%d): scalar %r, array %r; round(1e6*ppq*t/mpq) = %d (exact value %s)" % (
+            t, r["mpq"], r["ppq"], _try(M.seconds_to_midi_ticks, t, r["mpq"], r["ppq"]),
+            _try(lambda: [int(x) for x in M.seconds_to_midi_ticks(np.array([float(t)]), r["mpq"], r["ppq"])]), rhe(exact), exact))
+    elif "times" in r:
+        ts = np.array([float.fromhex(x) for x in r["times"]]).reshape(r["shape"])
+        print("seconds_to_midi_ticks(array):", _try(lambda: [int(x) for x in np.asarray(M.seconds_to_midi_ticks(ts, r["mpq"], r["ppq"])).ravel()]))
+        print("expected                    :", r["expected"])
+    elif "function" in r:
+        fn = getattr(M, str(r["function"]), None)
+        if callable(fn) and isinstance(r.get("args"), list):
+            print("now: %s(%s) = %r" % (r["function"], ", ".join(map(repr, r["args"])), _try(fn, *r["args"])))
+        print("recorded: got", r.get("got"), "expected", r.get("expected"))
     return 0
 
 
